@@ -271,6 +271,26 @@ Proof.
     apply (finish_fresh _ _ _ _ _ _ _ deps mode F).
 Qed.
 
+(* the source info of one compiled file, for every form and EVERY value of the mode (a bit set; only the value
+   SourceInfoNone = 0 strips): none under SourceInfoNone; under any other mode source info that came with the
+   supplied descriptor is kept as it is, a file with an AST and no source info gets the generated one, a file with
+   neither has none *)
+Theorem source_info_per_mode_lemma : forall h s inp a s0 deps mode,
+  wfh h -> represents h s inp a s0 ->
+  exists c sres h',
+    compile_file h inp deps mode = Some ((c, sres), h') /\
+    (mode_none mode = true -> sres = None) /\
+    (mode_none mode = false -> forall x, s0 = Some x -> sres = Some x) /\
+    (mode_none mode = false -> s0 = None -> forall t, a = Some t -> sres = Some (gen_si mode t c)) /\
+    (mode_none mode = false -> s0 = None -> a = None -> sres = None).
+Proof.
+  intros h s inp a s0 deps mode W R.
+  destruct (compile_file_spec h s inp a s0 deps mode W R) as (h' & E & _).
+  eexists _, _, h'. split; [exact E |]. unfold expected_si.
+  destruct a as [t |]; destruct s0 as [x |]; destruct (mode_none mode); cbn [negb];
+    repeat split; intros; try discriminate; try congruence.
+Qed.
+
 Lemma represents_extends : forall h h' s inp a s0, wfh h -> extends h h' ->
   represents h s inp a s0 -> represents h' s inp a s0.
 Proof.
